@@ -43,8 +43,58 @@ pub fn valid_ietf(rng: &mut Rng, srv: Option<&[u8]>) -> Dgram {
 
 /// A hostile datagram: one of many classes around the server's acceptance rules.
 pub fn hostile(rng: &mut Rng, srv: &[u8]) -> Dgram {
-    let k = rng.below(34);
+    let k = rng.below(40);
     match k {
+        34 | 35 => {
+            // a request carrying a random subset of the other known tags next to NONC, in
+            // ascending wire order (well-formed) or with one adjacent pair of tags swapped (not)
+            use crate::refimpl::codec::*;
+            let ietf = rng.chance(1, 2);
+            let mut m = RefMsg::new();
+            m.set(NONC, &rng.bytes(if ietf { 32 } else { 64 }));
+            if ietf {
+                m.set(VER, &DRAFT13.to_le_bytes());
+            }
+            for t in [SIG, SRV, DELE, PATH, RADI, PUBK, MIDP, SREP, VERS, MINT, ROOT, CERT, MAXT, INDX, ZZZZ, PAD] {
+                if rng.chance(1, 4) && !(ietf && t == SRV) {
+                    let l = 4 * rng.below(3) as usize;
+                    m.set(t, &rng.bytes(l));
+                }
+            }
+            // pad with whichever padding tag sorts last among those present
+            let padtag = if m.has(PAD) || !ietf { PAD } else { ZZZZ };
+            m.set(padtag, &[]);
+            let base = m.encode().len() + if ietf { 12 } else { 0 };
+            m.set(padtag, &vec![0u8; 1024usize.saturating_sub(base)]);
+            let swapped = k == 35 && m.fields.len() >= 2;
+            if swapped {
+                // swap the tag words only (values stay): not ascending any more
+                let i = if rng.chance(1, 2) { m.fields.len() - 2 } else { rng.usize_below(m.fields.len() - 1) };
+                let (a, b) = (m.fields[i].0, m.fields[i + 1].0);
+                m.fields[i].0 = b;
+                m.fields[i + 1].0 = a;
+            }
+            let d = if ietf { m.encode_framed() } else { m.encode() };
+            Dgram { data: d, class: if swapped { "tag-subset-one-pair-swapped" } else { "tag-subset-ascending" } }
+        }
+        36 | 37 => {
+            // VER value whose BYTES contain the draft-13 word at an unaligned offset, while none of
+            // its 4-byte entries is draft-13
+            let shift = rng.range(1, 3) as usize;
+            let mut v = rng.bytes(shift);
+            v.extend_from_slice(&DRAFT13.to_le_bytes());
+            while v.len() % 4 != 0 {
+                v.push(rng.below(256) as u8);
+            }
+            if rng.chance(1, 2) {
+                let mut pre = rng.bytes(4);
+                pre[0] = 1; // not draft-13
+                pre.extend_from_slice(&v);
+                v = pre;
+            }
+            let has13 = v.chunks(4).any(|c| c == DRAFT13.to_le_bytes());
+            Dgram { data: req::ietf_request_raw(Some(&v), None, Some(&rng.bytes(32)), 1024), class: if has13 { "ietf-ver-unaligned-also-aligned" } else { "ietf-ver-draft13-bytes-unaligned" } }
+        }
         0 => Dgram { data: vec![], class: "empty" },
         1 => Dgram { data: rng.rbytes(1, 1023), class: "random-short" },
         2 => Dgram { data: rng.bytes(1023), class: "random-1023" },
